@@ -784,6 +784,9 @@ func genLive(o hx.Opts, emit func(string)) {
 	emit("fn=live_flood stack=tlcp victim=client kind=hs n=50 size=16000")
 	emit("fn=live_flood stack=dtlcp victim=server kind=hs n=50 size=1000")
 	emit("fn=live_flood stack=dtlcp victim=client kind=hs n=50 size=1000")
+	// F43: a client whose own signing certificate has an RSA / Ed25519 key, asked for a certificate
+	emit("fn=live_cert stack=tlcp victim=client suite=ecc ssig=sm2 senc=sm2 csig=rsa cenc=sm2 auth=1")
+	emit("fn=live_cert stack=dtlcp victim=client suite=ecc ssig=sm2 senc=sm2 csig=ed cenc=sm2 auth=1")
 	for _, st := range []string{"tlcp", "dtlcp"} {
 		for _, v := range []string{"server", "client"} {
 			for _, k := range []string{"warn", "empty", "ccs"} {
